@@ -354,6 +354,7 @@ var spec = &hx.Spec[Case]{
 	Required:    []string{"mod:none", "mod:flip", "mod:trunc", "mod:extend", "mod:swap", "mod:overwrite", "batch>=1", "damage-at-batch-boundary", "file==blob", "file!=blob", "digest:sha256", "cancel:before-call", "cancel:mid-run", "cancel:interrupted", "cancel:mismatch-not-accepted"},
 	Gen:         genCase,
 	Run:         run,
+	Watchdog:    hx.Pick(30*time.Second, 120*time.Second), // "accepts iff" includes returning at all
 }
 
 func TestMain(m *testing.M) { hx.Main(m) }
